@@ -20,7 +20,7 @@ Anything outside this list of shapes aborts (fail closed).
 """
 import ast
 
-from translate import parse, need, const_str, const_int, coq_string, HEADER, TranslateAbort  # noqa: F401
+from translate import parse, need, const_str, const_int, coq_string, dump_eq, HEADER, TranslateAbort  # noqa: F401
 
 PRELUDE = r"""From Verif Require Import Base.Res.
 Open Scope Z_scope.
@@ -190,6 +190,56 @@ def tr_block(cx, stmts, errs):
     need(False, f"{cx.fname}: statement shape {ast.unparse(s)[:80]}")
 
 
+def tr_wrap_impure(tree):
+    """wrap_impure(expr, invoke): the per-token result cache of the impure operators.
+    Recognised: def fn(*args): if <hit>: return expr.value; expr.value = invoke(*args); [expr.value_args = args;] return expr.value
+    where <hit> is `expr.value is not None`, optionally and-ed with the comparison of expr.value_args with args
+    (same length, and element-wise identical or equal ints).  -> (keyed, records_args)"""
+    fns = [n for n in tree.body if isinstance(n, ast.FunctionDef) and n.name == "wrap_impure"]
+    need(len(fns) == 1, "def wrap_impure not found exactly once")
+    w = fns[0]
+    need([a.arg for a in w.args.args] == ["expr", "invoke"] and not w.args.vararg and not w.args.kwarg, "wrap_impure parameters")
+    body = [n for n in w.body if not (isinstance(n, ast.Expr) and isinstance(n.value, ast.Constant))]
+    need(len(body) == 2 and isinstance(body[0], ast.FunctionDef) and isinstance(body[1], ast.Return), "wrap_impure body shape")
+    dump_eq(body[1], "return fn", "wrap_impure result")
+    fn = body[0]
+    need(not fn.args.args and fn.args.vararg is not None and fn.args.vararg.arg == "args" and not fn.args.kwarg
+         and not fn.args.kwonlyargs and not fn.decorator_list, "wrap_impure.fn parameters")
+    st = fn.body
+    need(len(st) in (3, 4) and isinstance(st[0], ast.If) and not st[0].orelse, "wrap_impure.fn body shape")
+    need(len(st[0].body) == 1, "wrap_impure.fn: cache-hit branch")
+    dump_eq(st[0].body[0], "return expr.value", "wrap_impure.fn: cache-hit branch")
+    dump_eq(st[1], "expr.value = invoke(*args)", "wrap_impure.fn: computing the value")
+    dump_eq(st[-1], "return expr.value", "wrap_impure.fn: result")
+    records = len(st) == 4
+    if records:
+        dump_eq(st[2], "expr.value_args = args", "wrap_impure.fn: recording the operands")
+    test = st[0].test
+    present = "expr.value is not None"
+    same_len = "len(expr.value_args) == len(args)"
+    same_val = "all(a is b or (isinstance(a, int) and isinstance(b, int) and a == b) for a, b in zip(expr.value_args, args))"
+    if isinstance(test, ast.BoolOp):
+        need(isinstance(test.op, ast.And) and len(test.values) == 3, "wrap_impure.fn: cache-hit condition")
+        dump_eq(test.values[0], present, "wrap_impure.fn: cache-hit condition (1)")
+        dump_eq(test.values[1], same_len, "wrap_impure.fn: cache-hit condition (2)")
+        dump_eq(test.values[2], same_val, "wrap_impure.fn: cache-hit condition (3)")
+        keyed = True
+    else:
+        dump_eq(test, present, "wrap_impure.fn: cache-hit condition")
+        keyed = False
+    need(not keyed or records, "wrap_impure.fn compares expr.value_args but never records it")
+    # where it is applied: only to operators that are not pure, in both resolve() methods
+    for cls in ("InfixOperator", "UnaryOperator"):
+        c = [n for n in tree.body if isinstance(n, ast.ClassDef) and n.name == cls]
+        need(len(c) == 1, f"class {cls}")
+        r = [n for n in c[0].body if isinstance(n, ast.FunctionDef) and n.name == "resolve"]
+        need(len(r) == 1, f"{cls}.resolve")
+        hits = [n for n in ast.walk(r[0]) if isinstance(n, ast.If) and ast.dump(n.test) == ast.dump(ast.parse("not self.pure", mode="eval").body)]
+        need(len(hits) == 1 and len(hits[0].body) == 1 and not hits[0].orelse, f"{cls}.resolve: `if not self.pure:`")
+        dump_eq(hits[0].body[0], "invoke = wrap_impure(self, invoke)", f"{cls}.resolve: wrapping")
+    return keyed, records
+
+
 def kw_bool(call, name, default, fname):
     for k in call.keywords:
         if k.arg == name:
@@ -266,7 +316,12 @@ def gen_operators():
         rows.append((kind, char.lower(), fname,
                      f"mk_op_row {coq_string(char.lower())} {kind} {prec} {b(assoc == 'left')} {b(awaited)} {b(pure)} {b(token)} {coq_string(fname)}"))
     need(rows, "no @operator found")
+    keyed, records = tr_wrap_impure(tree)
     out = HEADER.format(src="pdpy11/operators.py") + PRELUDE + "\n" + "\n".join(defs) + "\n"
+    out += "(* wrap_impure: the value cached on an impure operator's token is reused only when the operands are the ones it\n"
+    out += "   was computed from (keyed), and those operands are recorded with it (records_args) *)\n"
+    out += f"Definition wrap_impure_keyed : bool := {'true' if keyed else 'false'}.\n"
+    out += f"Definition wrap_impure_records_args : bool := {'true' if records else 'false'}.\n\n"
     out += "(* every @operator in source order; characters lower-cased as CaseInsensitiveDict / Parser.literal do *)\n"
     out += "Definition operator_table : list op_row :=\n  [ " + "\n  ; ".join(r[3] for r in rows) + " ].\n\n"
     for kind, nm, ty in (("KInfix", "infix_body", "Z -> Z -> res opres"), ("KPrefix", "prefix_body", "Z -> res opres"),
